@@ -201,8 +201,8 @@ func init() {
 			}
 			return p
 		},
-		Oracle:      c05Oracle,
-		Components:  stdComponents,
+		Oracle:     c05Oracle,
+		Components: stdComponents,
 		Assumptions: []string{"header names compare case-insensitively; values of one name compare as an ordered list, a comma-joined single field being equal to the list",
 			"generated metadata never uses control or hop-by-hop header names, nor leading/trailing blanks in values"},
 	})
